@@ -492,6 +492,15 @@ func ruleR16f(c *Check) {
 	c.Rule("R16f", "the pkl evaluator is only touched under its mutex (caller-held summary); the loader's first error is recorded inside sync.Once.Do; every mutex taken in the loading package is released on every path", 3)
 	// evaluator guarded
 	key := fk("loading.PklLoader", "evaluator")
+	// its mutex: the (only) mutex field of the loader struct
+	muName := "evaluatorMu"
+	if st := structByKey(c, "loading.PklLoader"); st != nil && !hasField(st, muName) {
+		for i := 0; i < st.NumFields(); i++ {
+			if t := st.Field(i).Type().String(); t == "sync.Mutex" || t == "sync.RWMutex" {
+				muName = st.Field(i).Name()
+			}
+		}
+	}
 	n := 0
 	for _, fn := range c.P.Funcs {
 		for _, b := range fn.Blocks {
@@ -502,8 +511,8 @@ func ruleR16f(c *Check) {
 				}
 				n++
 				ls := engine.ComputeLockSets(fn, entryLocks(c, fn, 0))
-				want := engine.ExprKey(fa.X) + ".evaluatorMu"
-				c.Require(ls.Held(fa)[want], "R16f", "guarded/loading.PklLoader.evaluator/"+c.P.FuncName(fn), "holds "+want, "the shared pkl evaluator is accessed without evaluatorMu while loader goroutines run in parallel", c.P.InstrPos(fa))
+				want := engine.ExprKey(fa.X) + "." + muName
+				c.Require(ls.Held(fa)[want], "R16f", "guarded/loading.PklLoader.evaluator/"+c.P.FuncName(fn), "holds "+want, "the shared pkl evaluator is accessed without "+muName+" while loader goroutines run in parallel", c.P.InstrPos(fa))
 			}
 		}
 	}
